@@ -348,6 +348,11 @@ void Runner::op_start(Thread *t, int idx, const Op &op, OpRes &res) {
     } else if (!fault_ignorable && !s.fork && (s.prog == 1 || s.prog == 2 || s.prog == 9 || s.prog == 10) && (v == -ENOENT || v == -EACCES || v == -ENOTDIR)) {
       viol("C03", "relative-program-not-found", fmt("prog=%s/wd=%d", s.prog == 9 ? "../<cwd>/prog" : prog_string(s.prog), s.wd),
            fmt("'%s' exists relative to the parent's working directory but start returned %s", s.prog == 9 ? "../<cwd>/prog" : prog_string(s.prog), errn(v).c_str()), idx);
+    } else if (!fault_ignorable && !fault_seen && (s.wd == 1 || s.wd == 4 || s.wd == 5) && (v == -ENOTDIR || v == -ENOENT || v == -EACCES || v == -EBADF) &&
+               (s.fork || s.prog == 0)) {
+      // the requested working directory exists and can be entered, the program does not depend on it
+      viol("C03", "working-directory-not-entered", fmt("wd=%d/low-fds=%d", s.wd, plan.w.low_fds),
+           fmt("start returned %s although the requested working directory exists and the program is executable", errn(v).c_str()), idx);
     } else if (!fault_ignorable) {
       // a valid, executable configuration failed: the stream set-up cannot deliver what the options ask for
       int low = plan.w.low_fds;
